@@ -47,7 +47,7 @@ Here is a semantic property that the library is supposed to satisfy (also in {ro
         cd {wt} && export GOFLAGS=-mod=mod GOPROXY=off GOSUMDB=off && go test -mod=mod -json -vet=off -count=1 -timeout 25m ./... > {root}/{pid}.testlog.json 2>&1 ; python3 {root}/baseline_check.py {root}/{pid}.testlog.json
       It must print "baseline tests: 140 passing now: 140". (Some test binaries abort at SCTP tests in this sandbox; that is expected and already accounted for by the script.)"""
     earlier_n = []
-    for mf in sorted(glob.glob(f'/verif/seeded/{pid}n*/meta.json')):
+    for mf in sorted(glob.glob(f'/verif/seeded/{pid}[nmk]/meta.json')):
         m = json.load(open(mf))
         if m.get('what'): earlier_n.append('  - ' + m['what'])
     if mode == 'break':
